@@ -54,7 +54,7 @@ def run(tier):
     c.assumptions += ["the C declarations in cview/cview.c are written from the property statement (field order and function signatures), not generated from the Rust sources",
                       "element types: u8, u64, 3-byte struct, 16-byte aligned struct driven entirely from C; heap-owning and zero-sized elements with destructors released from C", "quick = debug build; thorough adds the release build"]
     c.finish({"behaviours_replayed": tb, "replay_steps": ts, "exhaustive": True, "evaluations": tb, "distinct_nontrivial": nn,
-              "rule": "all Gen_CVec behaviours a C caller can provoke (push/pop/insert/remove/reserve/write/release in C, 4 element types), all Gen_CArc behaviours with clone/release in C, differential scripts for box, slices (lengths 0-5), callbacks (lengths 0-5 x stop positions), iterators, option/result tags"})
+              "rule": "all Gen_CVec behaviours a C caller can provoke (push/pop/insert/remove/reserve/write/release in C, 4 element types), all Gen_CArc behaviours with clone/release in C, differential scripts for box, slices (lengths 0-5), callbacks (lengths 0-5 x stop positions), iterators, option/result tags; values MADE by C from the published layouts and used in Rust: box (owned / lent, typed / opaque), vector over malloc/realloc/free (grown, edited, dropped in Rust), callback (one object across several feeds), iterator (8 end statuses), arc handles (one handle object per clone)"})
 
 
 def replay(path):
